@@ -100,6 +100,7 @@ func (d *updogDriver) openFile(file string, optValues url.Values) (driver.Conn, 
 		conn.refs.Add(1)
 		return conn, nil
 	}
+	verifPoint("driver.open", 0)
 
 	idx, err := updog.OpenIndex(file, opts...)
 	if err != nil {
@@ -156,6 +157,7 @@ func (c *fileConn) prepare(query string) (*fileStmt, error) {
 func (c *fileConn) Close() error {
 	c.d.fileConnMtx.Lock()
 	defer c.d.fileConnMtx.Unlock()
+	verifPoint("driver.close", 0)
 
 	if c.refs.Add(-1) <= 0 {
 		// the last reference is gone: forget the connection before closing the index,
